@@ -14,6 +14,8 @@ import Carquet.Impl.Varint
 import Carquet.Impl.Delta
 import Carquet.Impl.Dictionary
 import Carquet.Impl.Bitpack
+import Carquet.Impl.Crc32
+import Carquet.Spec.Sbbf
 /-
 Driver op of the translator self-check (component `cfun`, harness/ops_cfun.c):
 
@@ -132,8 +134,172 @@ def linkChecks (e : Gen.CFun.Entry) (a : List Nat) (r : Nat) : List (String × B
   | some b => [("model_link_" ++ e.name, b)]
   | none => []
 
+/-! ### stage 2 (`cfun2`): arguments / results are integers or arrays -/
+
+open Carquet.Impl.CSem (Val Kind)
+
+def parseVal (k : Kind) (v : Option String) : Option Val :=
+  match k, v with
+  | .arr 8, some t => (parseHex t).map (fun bs => Val.a (bs.map (·.toNat)))
+  | .arr _, some t => (parseList String.toNat? t).map Val.a
+  | _, some t => t.toNat?.map Val.n
+  | _, none => none
+
+def allSome : List (Option α) → Option (List α)
+  | [] => some []
+  | some x :: r => (allSome r).map (x :: ·)
+  | none :: _ => none
+
+def vN : Val → Nat
+  | .n x => x
+  | .a _ => 0
+
+def vA : Val → List Nat
+  | .a xs => xs
+  | .n _ => []
+
+def vBytes (v : Val) : List UInt8 := (vA v).map UInt8.ofNat
+
+def bytesOfWords (ws : List Nat) : List UInt8 := ws.flatMap (fun w => Impl.Bloom.store32 (BitVec.ofNat 32 w))
+
+/-- the model side of the link theorem of a stage-2 function (lean/Carquet/Properties/Cnn/CFun2.lean), evaluated inside
+the theorem's hypotheses on the arguments `g` (by parameter name) and compared with the results `r` of the real C
+function; `none`: outside the hypotheses / no executable model -/
+def modelLink2 (f : String) (g : String → Val) (r : List Val) : Option Bool :=
+  let data := vBytes (g "data")
+  let lenOk := fun (nm : String) (arr : String) => vN (g nm) == (vA (g arr)).length
+  match f with
+  | "carquet_xxhash64" =>
+    if lenOk "length" "data" then
+      some (r == [Val.n (Impl.Xxh64.xxh64 data (BitVec.ofNat 64 (vN (g "seed")))).toNat]) else none
+  | "bloom_filter_block_insert" =>
+    let ws := vA (g "block")
+    if ws.length ≥ 8 then
+      some (r == [Val.a ((Carquet.Spec.Sbbf.wordsOfBytes (Impl.Bloom.blockInsertLoop (BitVec.ofNat 32 (vN (g "hash")))
+        Impl.Bloom.salt (bytesOfWords ws))).map (·.toNat))]) else none
+  | "bloom_filter_block_check" =>
+    let ws := vA (g "block")
+    if ws.length ≥ 8 then
+      some (r == [Val.n (b2n (Impl.Bloom.blockCheckLoop (BitVec.ofNat 32 (vN (g "hash"))) Impl.Bloom.salt (bytesOfWords ws)))])
+    else none
+  | "crc32_slicing_by_8" | "carquet_crc32_update" =>
+    -- on the not-yet-initialised state (flag 0) the content of the table memory does not matter
+    if vN (g "crc32_tables_initialized") == 0 && lenOk "length" "data" then
+      some (r.head? == some (Val.n (Impl.Crc32.update (BitVec.ofNat 32 (vN (g "crc"))) data).toNat)) else none
+  | "carquet_crc32" =>
+    if vN (g "crc32_tables_initialized") == 0 && lenOk "length" "data" then
+      some (r.head? == some (Val.n (Impl.Crc32.crc32 data).toNat)) else none
+  | "crc32_init_tables" =>
+    if vN (g "crc32_tables_initialized") == 0 then
+      some (r == [Val.a ((List.range 2048).map (fun n => (Impl.Crc32.table (n / 256) (n % 256)).toNat)), Val.n 1]) else none
+  | "carquet_decode_varint32" =>
+    let p := vBytes (g "p")
+    if lenOk "len" "p" then
+      some (match Impl.Varint.decodeVarint32 p with
+        | some (v, rest) => r == [Val.n (p.length - rest.length), Val.n v]
+        | none => r == [Val.n 4294967295, g "out"]) else none
+  | "carquet_decode_varint64" =>
+    let p := vBytes (g "p")
+    if lenOk "len" "p" then
+      some (match Impl.Varint.decodeVarint64 p with
+        | some (v, rest) => r == [Val.n (p.length - rest.length), Val.n v]
+        | none => r == [Val.n 4294967295, g "out"]) else none
+  | "carquet_encode_varint32" =>
+    let p := vBytes (g "p")
+    let w := Impl.Varint.writeVarint32 (vN (g "v"))
+    if w.length ≤ p.length then some (r == [Val.n w.length, Val.a ((w ++ p.drop w.length).map (·.toNat))]) else none
+  | "carquet_encode_varint64" =>
+    let p := vBytes (g "p")
+    let w := Impl.Varint.writeVarint64 (vN (g "v"))
+    if w.length ≤ p.length then some (r == [Val.n w.length, Val.a ((w ++ p.drop w.length).map (·.toNat))]) else none
+  | "rle_read_varint" =>
+    if lenOk "size" "data" && vN (g "pos") ≤ data.length then
+      some (match Impl.Varint.readVarintRle (data.drop (vN (g "pos"))) with
+        | some (v, rest) => r == [Val.n 0, Val.n (data.length - rest.length), Val.n v]
+        | none => r == [Val.n 4294967295, g "pos", g "out"]) else none
+  | "read_uleb128" =>
+    if lenOk "size" "data" then
+      some (match Impl.Delta.readUleb128 data with
+        | some (v, n) => r == [Val.n n, Val.n v.toNat]
+        | none => r.head? == some (Val.n 0)) else none
+  | "stats_compare_int32" | "rstats_compare_int32" =>
+    some (r == [Val.n (BitVec.ofInt 32 (Impl.Stats.cmpI32 (vBytes (g "a")) (vBytes (g "b")))).toNat])
+  | "stats_compare_int64" | "rstats_compare_int64" =>
+    some (r == [Val.n (BitVec.ofInt 32 (Impl.Stats.cmpI64 (vBytes (g "a")) (vBytes (g "b")))).toNat])
+  | "stats_compare_int96" | "rstats_compare_int96" =>
+    some (r == [Val.n (BitVec.ofInt 32 (Impl.Stats.cmpI96 (vBytes (g "a")) (vBytes (g "b")))).toNat])
+  | "stats_compare_boolean" | "rstats_compare_boolean" =>
+    some (r == [Val.n (BitVec.ofInt 32 (Impl.Stats.cmpBool (vBytes (g "a")) (vBytes (g "b")))).toNat])
+  | "carquet_bitunpack8_3bit" =>
+    let vs := vA (g "values")
+    if vs.length ≥ 8 then some (r == [Val.a (Impl.Bitpack.unpack8_3bit (vBytes (g "input")) ++ vs.drop 8)]) else none
+  | "carquet_read_u32_le" | "carquet_read_i32_le" => some (r == [Val.n (Impl.Bitpack.leNat ((vBytes (g "p")).take 4))])
+  | "snappy_read_varint" =>
+    let p := vBytes (g "p")
+    if vN (g "end_") == p.length then
+      some (match Impl.Snappy.readVarint Impl.Snappy.Fixes.all p.toArray with
+        | some (v, n) => r == [Val.n n, Val.n v]
+        | none => r.head? == some (Val.n 0)) else none
+  | _ => none
+
+/-- the hypotheses of the `…_defined` link theorem of a stage-2 function hold for these arguments: the theorem says the
+call is free of undefined behaviour, so a regenerated `_defined = false` here is a concrete input on which the (changed) C
+function reads out of bounds / shifts too far / runs out of fuel -/
+def definedClaim (f : String) (g : String → Val) : Bool :=
+  let lenOk := fun (nm : String) (arr : String) => vN (g nm) == (vA (g arr)).length
+  match f with
+  | "carquet_xxhash64" => lenOk "length" "data"
+  | "read64_le" => (vA (g "p")).length ≥ 8
+  | "read32_le" => (vA (g "p")).length ≥ 4
+  | "bloom_filter_block_insert" | "bloom_filter_block_check" => (vA (g "block")).length ≥ 8
+  | "crc32_slicing_by_8" | "carquet_crc32_update" | "carquet_crc32" =>
+    vN (g "crc32_tables_initialized") == 0 && (vA (g "crc32_tables")).length == 2048 && lenOk "length" "data"
+  | "crc32_init_tables" => vN (g "crc32_tables_initialized") == 0 && (vA (g "crc32_tables")).length == 2048
+  | "carquet_decode_varint32" | "carquet_decode_varint64" => lenOk "len" "p"
+  | "carquet_encode_varint32" => (Impl.Varint.writeVarint32 (vN (g "v"))).length ≤ (vA (g "p")).length
+  | "carquet_encode_varint64" => (Impl.Varint.writeVarint64 (vN (g "v"))).length ≤ (vA (g "p")).length
+  | "rle_read_varint" => lenOk "size" "data" && vN (g "pos") ≤ (vA (g "data")).length
+  | "read_uleb128" => lenOk "size" "data"
+  | "stats_compare_int32" | "rstats_compare_int32" => (vA (g "a")).length ≥ 4 && (vA (g "b")).length ≥ 4
+  | "stats_compare_int64" | "rstats_compare_int64" => (vA (g "a")).length ≥ 8 && (vA (g "b")).length ≥ 8
+  | "stats_compare_int96" | "rstats_compare_int96" => (vA (g "a")).length ≥ 12 && (vA (g "b")).length ≥ 12
+  | "stats_compare_boolean" | "rstats_compare_boolean" => (vA (g "a")).length ≥ 1 && (vA (g "b")).length ≥ 1
+  | "carquet_bitunpack8_3bit" => (vA (g "input")).length ≥ 3 && (vA (g "values")).length ≥ 8
+  | "snappy_read_varint" => vN (g "end_") == (vA (g "p")).length
+  | _ => false
+
+def handle2 (l : Line) : Verdict :=
+  match l.inStr "f", l.inNat "d" with
+  | some f, some d =>
+    match Gen.CFun.table2.find? (·.name == f) with
+    | none => .bad s!"cfun2: unknown function {f}"
+    | some e =>
+      match allSome (e.args.zipIdx.map (fun p => parseVal p.1.2 (l.inStr s!"a{p.2}"))) with
+      | none => .bad s!"cfun2: {f}: bad arguments"
+      | some a =>
+        match e.eval a with
+        | none => .bad s!"cfun2: {f} takes {e.args.length} arguments"
+        | some (v, df) =>
+          if l.outStr "missing" == some "1" then verdict [("c_wrapper_exists", false)] []
+          else if d == 1 then
+            match allSome (e.outs.zipIdx.map (fun p => parseVal p.1.2 (l.outStr s!"r{p.2}"))) with
+            | some r =>
+              let kv := (e.args.map (·.1)).zip a
+              let link := match modelLink2 e.name (fun k => ((kv.find? (·.1 == k)).map (·.2)).getD (Val.n 0)) r with
+                | some b => [("model_link_" ++ e.name, b)]
+                | none => []
+              verdict ([("defined_flag", df), ("cfun_value", v == r),
+                        ("no_ubsan_report_when_defined", (l.outNat "ub").getD 0 == 0)]) link
+            | none => .bad "cfun2: d=1 but results missing"
+          else
+            let kv := (e.args.map (·.1)).zip a
+            let claim := definedClaim e.name (fun k => ((kv.find? (·.1 == k)).map (·.2)).getD (Val.n 0))
+            verdict [("defined_flag", !df)] (if claim then [("model_link_defined_" ++ e.name, false)] else [])
+  | _, _ => .bad "cfun2 args"
+
 def handle (l : Line) : Option Verdict :=
   match l.op with
+  | "cfun2" => some (handle2 l)
   | "cfun" => some <|
     match l.inStr "f", l.inNats "a", l.inNat "d" with
     | some f, some a, some d =>
